@@ -7,5 +7,6 @@ CONSTANTS
   MaxReap = 2
   Faults = TRUE
   SplitGet = TRUE
+  TouchOutside = FALSE
 VIEW View
 INVARIANTS TypeOK OneTransportPerName CallersShareTheCachedTransport SameNameSameTransport IdentitiesNeverReused NeverHalfInitialised BoundedRetries OnlyAgedAreReaped
